@@ -9,8 +9,9 @@
     [rec_ok]: identifier non-empty without blank, annotations [wfv], sequence non-empty over a-z - . [ ];
     [fq_ok]: [rec_ok] + one quality 0..93 per nucleotide; [canon]: members ordered (strictly) by encoded key, the only
     order the writer can produce from a Go map (the correspondence run checks that every generated value and record is in
-    this domain). The JSON decoder [dec] (go-json) is a parameter of the theorems: it is only assumed to return the
-    annotations of the records at hand from their marshalled form ([dec_inverts]). *)
+    this domain). Round 2: the JSON decoder is no longer a parameter: [jparse] / [jdec0] / [jdec renum64] are executable
+    parsers inside the model (compared with go-json on every run); the round-1 statements for an arbitrary decoder that
+    inverts the marshaller are kept as [_any_decoder]. *)
 From Coq Require Import NArith ZArith List Bool.
 From OBI.C02 Require Import Model Proofs.
 Import ListNotations.
@@ -39,23 +40,91 @@ Theorem C02_scan_finds_object_orig_partial : forall o rest, wfv (JObj o) = true 
   scan_obj_orig (ser (JObj o) ++ rest) = Some (0%nat, length (ser (JObj o))).
 Proof. exact scan_orig_finds_object_noquote. Qed.
 
-(** [core] header parser = scanner + decoder: whenever the decoder returns the object that was marshalled, the header
-    parser returns these annotations unchanged and keeps what follows them as the definition. *)
-Theorem C02_header_roundtrip : forall (dec : list N -> option jvalue) o rest, wfv (JObj o) = true ->
+(** ** the JSON decoder (round 2: an executable parser inside the model instead of a hypothesis)
+    [jparse] reads one JSON value at the head of a byte string (white space between tokens, every string escape of the
+    basic plane, number tokens checked against the JSON grammar and kept as tokens); [jdec0 t]: [t] is exactly one value.
+    [jdec renum t]: go-json's Unmarshal into a Go map — members by key (ordered by encoded key, as the writer emits them),
+    the last member of a repeated key wins, every number token replaced by [renum tok] (token -> float64 -> token);
+    [renum64]: that path transcribed (exact decimal value -> nearest float64, ties to even -> shortest decimal that reads
+    back -> go-json's layout: 'e' format below 1e-6 and from 1e21); integer tokens go through a separate, simpler
+    transcription ([renum_int]) about which the fixed-point theorem is proved. *)
+(** [core] the parser inverts the marshaller on every well-formed value, whatever follows (after a number: anything that
+    cannot continue the token; inside arrays and objects that is always the case) *)
+Theorem C02_jparse_inverts_ser : forall v rest, wfv v = true -> utf8v v = true -> follow_ok v rest -> jparse (ser v ++ rest) = Some (v, rest).
+Proof. exact jparse_ser. Qed.
+Theorem C02_jparse_inverts_ser_object : forall o rest, wfv (JObj o) = true -> utf8v (JObj o) = true ->
+  jparse (ser (JObj o) ++ rest) = Some (JObj o, rest).
+Proof. exact jparse_ser_obj. Qed.
+(** whatever the parser accepts is well formed; whatever the map decoder returns is well formed and canonical *)
+Theorem C02_jparse_wellformed : forall s v r, jparse s = Some (v, r) -> wfv v = true.
+Proof. intros s v r. exact (jparse_f_wf _ s v r). Qed.
+Theorem C02_decoder_canonical : forall t v, jdec renum64 t = Some v -> wfv v = true /\ canon v = true.
+Proof. exact (jdec_wf_canon renum64 renum64_tok). Qed.
+(** decoding into a map leaves a canonical value with stable number tokens as it is *)
+Theorem C02_decoder_inverts_ser : forall v, wfv v = true -> utf8v v = true -> canon v = true -> numfixed renum64 v = true ->
+  jdec renum64 (ser v) = Some v.
+Proof. exact (jdec_ser renum64). Qed.
+
+(** [core] header parser = scanner + decoder: the annotations come back unchanged and what follows them is kept as the
+    definition — no hypothesis on the decoder any more. *)
+Theorem C02_header_roundtrip : forall o rest, wfv (JObj o) = true -> utf8v (JObj o) = true ->
+  parse_header jdec0 (ser (JObj o) ++ rest) = HObject (JObj o) (trim rest).
+Proof. exact header_roundtrip_j. Qed.
+Theorem C02_header_roundtrip_map : forall o rest, wfv (JObj o) = true -> utf8v (JObj o) = true -> canon (JObj o) = true ->
+  numfixed renum64 (JObj o) = true ->
+  parse_header (jdec renum64) (ser (JObj o) ++ rest) = HObject (JObj o) (trim rest).
+Proof. intros. apply parse_header_roundtrip; [assumption | apply jdec_ser; assumption]. Qed.
+(** still true for any other decoder that returns the object that was marshalled (e.g. go-json itself) *)
+Theorem C02_header_roundtrip_any_decoder : forall (dec : list N -> option jvalue) o rest, wfv (JObj o) = true ->
   dec (ser (JObj o)) = Some (JObj o) ->
   parse_header dec (ser (JObj o) ++ rest) = HObject (JObj o) (trim rest).
 Proof. exact parse_header_roundtrip. Qed.
-(* PARTIAL form of "re-parsing a formatted header never changes or loses annotations for ANY title line the parser
-   accepts": proved for the title lines whose decoded object is [wfv] and is returned by the decoder from its own
-   marshalled form; what is missing is a model of go-json's decoder relating an arbitrary accepted text to its value. *)
-Theorem C02_reparse_keeps_annotations_partial : forall (dec : list N -> option jvalue) o, wfv (JObj o) = true ->
-  dec (ser (JObj o)) = Some (JObj o) ->
-  parse_header dec (ser (JObj o)) = HObject (JObj o) [].
-Proof. exact parse_header_formatted. Qed.
-(** [core] the guessed parser takes the JSON branch for every record that has annotations *)
-Theorem C02_guessed_selects_json : forall dec id ann seq q, ann <> [] ->
+
+(** [core] FULL STRENGTH (round 1: _partial): re-parsing a formatted header never changes or loses annotations, for ANY
+    title line the header parser accepts — not only formatted ones: white space, members in any order, repeated keys,
+    any escape, text before / after the object. Token level ([renum] = identity): unconditional. *)
+Theorem C02_reparse_keeps_annotations : forall h m d, parse_header (jdec (fun t => t)) h = HObject (JObj m) d ->
+  utf8v (JObj m) = true -> parse_header (jdec (fun t => t)) (ser (JObj m)) = HObject (JObj m) [].
+Proof. intros h m d H. apply (reparse_keeps (fun t => t) (fun t Ht => Ht) h m d H). apply numfixed_id. Qed.
+(** the same for whole records (ParseFastSeqJsonHeader: the text after the object becomes / extends the definition) *)
+Theorem C02_reparse_keeps_record : forall p r, read_header (jdec (fun t => t)) p = RRec r -> utf8v (JObj (w_ann r)) = true ->
+  read_header (jdec (fun t => t)) (mkp (p_id p) (header_info (w_ann r)) (p_seq p) (p_qual p)) = RRec r.
+Proof. intros p r H. apply (reparse_record (fun t => t) (fun t Ht => Ht) p r H). apply numfixed_id. Qed.
+(** with numbers read as float64: holds whenever the number tokens of the parsed record are stable under
+    read-then-write ([numfixed renum64], decidable; evaluated on every harness case) — true of integers |x| <= 2^53 (below),
+    and of every token the encoder produces provided strconv's shortest formatting round-trips (trusted, checked each run) *)
+Theorem C02_reparse_keeps_record_float64 : forall p r, read_header (jdec renum64) p = RRec r ->
+  numfixed renum64 (JObj (w_ann r)) = true -> utf8v (JObj (w_ann r)) = true ->
+  read_header (jdec renum64) (mkp (p_id p) (header_info (w_ann r)) (p_seq p) (p_qual p)) = RRec r.
+Proof. exact (reparse_record renum64 renum64_tok). Qed.
+
+(** ** strings that are not valid UTF-8 (round 2: inside the model; OUTSIDE the claim, which speaks of Unicode strings):
+    the marshaller writes every offending byte as the six characters \\ufffd; the reader returns U+FFFD; the next write
+    emits U+FFFD raw: the value changes and the first re-write is not byte-identical; it is stable afterwards.
+    [utf8v] (every string and key is valid UTF-8) is therefore a premise of every theorem that goes through the decoder;
+    the scanner theorem C02_scan_finds_object needs no such premise. *)
+Theorem C02_invalid_utf8_refuted :
+  exists o, wfv (JObj o) = true /\ canon (JObj o) = true /\ utf8v (JObj o) = false /\
+    exists o', jdec renum64 (ser (JObj o)) = Some (JObj o') /\ o' <> o /\ ser (JObj o') <> ser (JObj o) /\
+               jdec renum64 (ser (JObj o')) = Some (JObj o').
+Proof.
+  exists [([97], JStr [255; 233])]. repeat split; try reflexivity.
+  exists [([97], JStr [239; 191; 189; 239; 191; 189])]. repeat split; try reflexivity; vm_compute; discriminate.
+Qed.
+
+(** ** numbers: the reader turns every number into a float64 (the float64 -> int block of _parse_json_header_ is a dead
+    store) and the writer prints the shortest decimal. Integers up to 2^53 in absolute value, written as strconv.Itoa
+    writes them, are fixed points of that path; 2^53 + 1 is not (sharp). *)
+Theorem C02_int_tokens_fixed : forall t, small_int_tok t = true -> renum64 t = t.
+Proof. exact small_int_fixed. Qed.
+Theorem C02_small_ints_stable : forall v, small_ints v = true -> numfixed renum64 v = true.
+Proof. exact small_ints_numfixed. Qed.
+Theorem C02_int_bound_is_sharp : exists t, is_int_tok t = true /\ numtok t = true /\ dval t = 2 ^ 53 + 1 /\ renum64 t <> t.
+Proof. exists [57; 48; 48; 55; 49; 57; 57; 50; 53; 52; 55; 52; 48; 57; 57; 51]. repeat split; try reflexivity. vm_compute. discriminate. Qed.
+(** the guessed parser and the JSON parser agree on every formatted header, the empty one included *)
+Theorem C02_guessed_selects_json : forall dec id ann seq q,
   read_guessed dec (mkp id (header_info ann) seq q) = read_header dec (mkp id (header_info ann) seq q).
-Proof. exact guessed_selects_json. Qed.
+Proof. exact guessed_agrees. Qed.
 (** a serialised value never contains a line terminator (the title stays one line) *)
 Theorem C02_ser_one_line : forall v, wfv v = true -> forallb noeol (ser v) = true.
 Proof. exact ser_noeol. Qed.
@@ -85,54 +154,94 @@ Theorem C02_fastq_chunk_roundtrip : forall shift l, shift_ok shift -> l <> [] ->
   exists text, format_batch true shift l = Ok text /\ parse_fastq shift text = Ok (map as_parsed_q l).
 Proof. exact fastq_roundtrip. Qed.
 
-(** ** [core] write then read gives the same records (FASTA does not carry qualities).
-    [dec_inverts dec r]: dec (ser (JObj (w_ann r))) = Some (JObj (w_ann r)) — the decoder returns the annotations of r
-    from their marshalled form (go-json does, for the canonical member order [canon] the writer produces; checked on
-    every generated record by the harness). *)
-Theorem C02_fasta_roundtrip : forall (dec : list N -> option jvalue) guessed shift l,
-  l <> [] -> forallb rec_ok l = true -> Forall (dec_inverts dec) l -> (guessed = true -> annotated l = true) ->
+(** ** [core] write then read gives the same records (FASTA does not carry qualities), for the JSON and the guessed
+    header parser, records with or without annotations — no hypothesis on the decoder any more *)
+Theorem C02_fasta_roundtrip : forall guessed shift l, l <> [] -> forallb rec_ok l = true -> forallb ann_utf8 l = true ->
+  exists text, format_batch false shift l = Ok text /\ read_file jdec0 false guessed shift text = RL (map drop_qual l).
+Proof. exact fasta_write_read_j. Qed.
+Theorem C02_fastq_roundtrip : forall guessed shift l, shift_ok shift -> l <> [] -> forallb fq_ok l = true -> forallb ann_utf8 l = true ->
+  exists text, format_batch true shift l = Ok text /\ read_file jdec0 true guessed shift text = RL l.
+Proof. exact fastq_write_read_j. Qed.
+(** for any decoder that inverts the marshaller on the records at hand (e.g. go-json itself) *)
+Theorem C02_fasta_roundtrip_any_decoder : forall (dec : list N -> option jvalue) guessed shift l,
+  l <> [] -> forallb rec_ok l = true -> Forall (dec_inverts dec) l ->
   exists text, format_batch false shift l = Ok text /\ read_file dec false guessed shift text = RL (map drop_qual l).
-Proof. exact fasta_write_read. Qed.
-Theorem C02_fastq_roundtrip : forall (dec : list N -> option jvalue) guessed shift l,
+Proof. exact fasta_write_read2. Qed.
+Theorem C02_fastq_roundtrip_any_decoder : forall (dec : list N -> option jvalue) guessed shift l,
   shift_ok shift -> l <> [] -> forallb fq_ok l = true -> Forall (dec_inverts dec) l ->
-  (guessed = true -> annotated l = true) ->
   exists text, format_batch true shift l = Ok text /\ read_file dec true guessed shift text = RL l.
-Proof. exact fastq_write_read. Qed.
+Proof. exact fastq_write_read2. Qed.
 
-(** ** [core] write-after-read is a fixed point: the second write is byte-identical.
-    (In the model the decoder returns the value that was marshalled; that go-json's float64 numbers are re-marshalled
-    to the same tokens is part of the trusted decoder/encoder pair and is checked on every run by the harness.) *)
-Theorem C02_write_is_fixed_point_fasta : forall (dec : list N -> option jvalue) guessed shift l,
-  l <> [] -> forallb rec_ok l = true -> Forall (dec_inverts dec) l -> (guessed = true -> annotated l = true) ->
-  exists text l', format_batch false shift l = Ok text /\ read_file dec false guessed shift text = RL l'
+(** ** [core] write-after-read is a fixed point: the second write is byte-identical *)
+Theorem C02_write_is_fixed_point_fasta : forall guessed shift l, l <> [] -> forallb rec_ok l = true -> forallb ann_utf8 l = true ->
+  exists text l', format_batch false shift l = Ok text /\ read_file jdec0 false guessed shift text = RL l'
                   /\ format_batch false shift l' = Ok text.
-Proof. exact fasta_fixed_point. Qed.
-Theorem C02_write_is_fixed_point_fastq : forall (dec : list N -> option jvalue) guessed shift l,
-  shift_ok shift -> l <> [] -> forallb fq_ok l = true -> Forall (dec_inverts dec) l ->
-  (guessed = true -> annotated l = true) ->
-  exists text l', format_batch true shift l = Ok text /\ read_file dec true guessed shift text = RL l'
+Proof. exact fasta_fixed_point_j. Qed.
+Theorem C02_write_is_fixed_point_fastq : forall guessed shift l, shift_ok shift -> l <> [] -> forallb fq_ok l = true -> forallb ann_utf8 l = true ->
+  exists text l', format_batch true shift l = Ok text /\ read_file jdec0 true guessed shift text = RL l'
                   /\ format_batch true shift l' = Ok text.
-Proof. exact fastq_fixed_point. Qed.
+Proof. exact fastq_fixed_point_j. Qed.
+(** the same through the Go map and float64: for records in canonical member order (the only one a Go map is written in)
+    whose number tokens are stable ([map_ok renum64]; e.g. all numbers integers |x| <= 2^53: C02_small_ints_stable) *)
+Theorem C02_write_is_fixed_point_fasta_float64 : forall guessed shift l, l <> [] -> forallb rec_ok l = true ->
+  forallb (map_ok renum64) l = true ->
+  exists text, format_batch false shift l = Ok text /\ read_file (jdec renum64) false guessed shift text = RL (map drop_qual l)
+               /\ format_batch false shift (map drop_qual l) = Ok text.
+Proof. exact (fasta_fixed_point_map renum64). Qed.
+Theorem C02_write_is_fixed_point_fastq_float64 : forall guessed shift l, shift_ok shift -> l <> [] -> forallb fq_ok l = true ->
+  forallb (map_ok renum64) l = true ->
+  exists text, format_batch true shift l = Ok text /\ read_file (jdec renum64) true guessed shift text = RL l.
+Proof. exact (fastq_fixed_point_map renum64). Qed.
 
 (** hypotheses are satisfiable: an object whose key and string contain quotes, backslashes and braces; two records,
     one 61 nucleotides long, that satisfy [fq_ok] and [annotated] and do round-trip through the automata *)
 Example C02_scan_nonvacuous :
   let o := [([107; 34; 125], JStr [92; 34; 123; 125; 10; 226; 128; 168]); ([110], JArr [JNum [45; 49; 46; 53; 101; 43; 50]; JObj []])] in
-  wfv (JObj o) = true /\ canon (JObj o) = true /\ scan_obj (ser (JObj o) ++ [32; 125; 34]) = Some (0%nat, length (ser (JObj o))).
+  wfv (JObj o) = true /\ canon (JObj o) = true /\ utf8v (JObj o) = true /\ scan_obj (ser (JObj o) ++ [32; 125; 34]) = Some (0%nat, length (ser (JObj o))).
 Proof. vm_compute. repeat split; reflexivity. Qed.
 Example C02_roundtrip_nonvacuous :
-  forallb fq_ok ex_recs = true /\ forallb canon_rec ex_recs = true /\ annotated ex_recs = true /\
-  Forall (dec_inverts ex_dec) ex_recs /\
-  match format_batch true 64 ex_recs with Ok t => read_file ex_dec true true 64 t = RL ex_recs | Fatal => False end /\
-  match format_batch false 33 ex_recs with Ok t => read_file ex_dec false false 33 t = RL (map drop_qual ex_recs) | Fatal => False end.
-Proof. repeat split; try (vm_compute; reflexivity). repeat constructor. Qed.
+  forallb fq_ok ex_recs = true /\ forallb (map_ok renum64) ex_recs = true /\
+  match format_batch true 64 ex_recs with Ok t => read_file (jdec renum64) true true 64 t = RL ex_recs | Fatal => False end /\
+  match format_batch false 33 ex_recs with Ok t => read_file jdec0 false false 33 t = RL (map drop_qual ex_recs) | Fatal => False end.
+Proof. repeat split; vm_compute; reflexivity. Qed.
+(** a title line nobody formatted: white space, members out of order, a repeated key, \u escapes, 1e2 left alone, an
+    integer beyond 2^53 rounded, text after the object — accepted, and its formatted header re-parses to the same record *)
+Example C02_reparse_nonvacuous :
+  let h := [32; 123; 32; 34; 122; 34; 32; 58; 32; 91; 49; 44; 32; 57; 48; 48; 55; 49; 57; 57; 50; 53; 52; 55; 52; 48; 57; 57; 51; 93; 44;
+            34; 97; 34; 58; 34; 92; 117; 48; 48; 101; 57; 92; 47; 34; 44; 34; 122; 34; 58; 110; 117; 108; 108; 125; 32; 116; 97; 105; 108; 32] in
+  exists r, read_header (jdec renum64) (mkp [105] h [97] None) = RRec r /\ numfixed renum64 (JObj (w_ann r)) = true /\
+            length (w_ann r) = 3%nat.
+Proof. eexists. repeat split; vm_compute; reflexivity. Qed.
+
+(** the two transcriptions of the number path agree on integer tokens (spot check; both are compared with go-json on every run) *)
+Example C02_number_paths_agree :
+  forallb (fun t => nlist_eqb (renum_int t) (renum_any t))
+    [[48]; [45; 48]; [55]; [45; 49; 50]; [57; 48; 48; 55; 49; 57; 57; 50; 53; 52; 55; 52; 48; 57; 57; 50];
+     [57; 48; 48; 55; 49; 57; 57; 50; 53; 52; 55; 52; 48; 57; 57; 51]; [57; 50; 50; 51; 51; 55; 50; 48; 51; 54; 56; 53; 52; 55; 55; 53; 56; 48; 55];
+     [49; 48; 48; 48; 48; 48; 48; 48; 48; 48; 48; 48; 48; 48; 48; 48; 48; 48; 48; 48; 48; 48];
+     [49; 50; 51; 52; 53; 54; 55; 56; 57; 48; 49; 50; 51; 52; 53; 54; 55; 56; 57; 48; 49; 50; 51; 52];
+     [45; 50; 53; 48; 48; 48; 48; 48; 48; 48; 48; 48; 48; 48; 48; 48; 48; 48; 48; 48; 48]] = true.
+Proof. vm_compute. reflexivity. Qed.
 
 Print Assumptions C02_scan_finds_object.
 Print Assumptions C02_scan_orig_refuted.
 Print Assumptions C02_scan_orig_refuted_silent.
 Print Assumptions C02_scan_finds_object_orig_partial.
+Print Assumptions C02_jparse_inverts_ser.
+Print Assumptions C02_jparse_inverts_ser_object.
+Print Assumptions C02_jparse_wellformed.
+Print Assumptions C02_decoder_canonical.
+Print Assumptions C02_decoder_inverts_ser.
 Print Assumptions C02_header_roundtrip.
-Print Assumptions C02_reparse_keeps_annotations_partial.
+Print Assumptions C02_header_roundtrip_map.
+Print Assumptions C02_header_roundtrip_any_decoder.
+Print Assumptions C02_reparse_keeps_annotations.
+Print Assumptions C02_reparse_keeps_record.
+Print Assumptions C02_reparse_keeps_record_float64.
+Print Assumptions C02_invalid_utf8_refuted.
+Print Assumptions C02_int_tokens_fixed.
+Print Assumptions C02_small_ints_stable.
+Print Assumptions C02_int_bound_is_sharp.
 Print Assumptions C02_guessed_selects_json.
 Print Assumptions C02_ser_one_line.
 Print Assumptions C02_fold60_concat.
@@ -145,5 +254,9 @@ Print Assumptions C02_fasta_chunk_roundtrip.
 Print Assumptions C02_fastq_chunk_roundtrip.
 Print Assumptions C02_fasta_roundtrip.
 Print Assumptions C02_fastq_roundtrip.
+Print Assumptions C02_fasta_roundtrip_any_decoder.
+Print Assumptions C02_fastq_roundtrip_any_decoder.
 Print Assumptions C02_write_is_fixed_point_fasta.
 Print Assumptions C02_write_is_fixed_point_fastq.
+Print Assumptions C02_write_is_fixed_point_fasta_float64.
+Print Assumptions C02_write_is_fixed_point_fastq_float64.
